@@ -28,6 +28,11 @@ pub enum Op {
 	CoinbaseNew { crash: Option<u64> },
 	CoinbaseRerequest,
 	CoinbaseForeignKey,
+	/// cancel the latest unconfirmed incoming payment of the active account: its output record
+	/// is deleted, its path stays consumed
+	CancelReceive,
+	/// a coinbase request naming a path that was bound to an output whose record no longer exists
+	CoinbaseDeletedKey,
 	Invoice,
 	BuildOutput,
 	Mine,
@@ -120,6 +125,8 @@ fn op_kind(op: &Op) -> &'static str {
 		Op::CoinbaseNew { .. } => "coinbase-new",
 		Op::CoinbaseRerequest => "coinbase-rerequest",
 		Op::CoinbaseForeignKey => "coinbase-foreign-key",
+		Op::CancelReceive => "cancel-receive",
+		Op::CoinbaseDeletedKey => "coinbase-deleted-key",
 		Op::Invoice => "invoice",
 		Op::BuildOutput => "build-output",
 		Op::Mine => "mine",
@@ -166,6 +173,8 @@ impl Model for M {
 			Op::CoinbaseNew { crash: None },
 			Op::CoinbaseRerequest,
 			Op::CoinbaseForeignKey,
+			Op::CancelReceive,
+			Op::CoinbaseDeletedKey,
 			Op::Invoice,
 			Op::BuildOutput,
 			Op::Mine,
@@ -241,6 +250,27 @@ impl Model for M {
 					None => Ok(Ok(())),
 					Some(k) => {
 						let bf = BlockFees { fees: 0, key_id: Some(k), height: w.node.height() + 1 };
+						catch(|| a.with(|x| foreign::build_coinbase(x, None, &bf, false)).map(|_| ()))
+					}
+				}
+			}
+			Op::CancelReceive => {
+				let parent = a.with(|x| x.parent_key_id());
+				let t = a.txs().into_iter().filter(|t| t.parent_key_id == parent && t.tx_type == crate::libwallet::TxLogEntryType::TxReceived && !t.confirmed).last();
+				match t {
+					None => Ok(Ok(())),
+					Some(t) => catch(|| a.cancel(Some(t.id), None)),
+				}
+			}
+			Op::CoinbaseDeletedKey => {
+				let prefix = format!("{}/", acct_path(&m.active));
+				let existing: BTreeSet<String> = a.outputs().iter().map(|o| o.key_id.to_bip_32_string()).collect();
+				let k = m.bound.keys().find(|k| k.starts_with(&prefix) && !existing.contains(*k)).cloned();
+				match k {
+					None => Ok(Ok(())),
+					Some(k) => {
+						let id = path_to_id(&k);
+						let bf = BlockFees { fees: 0, key_id: Some(id), height: w.node.height() + 1 };
 						catch(|| a.with(|x| foreign::build_coinbase(x, None, &bf, false)).map(|_| ()))
 					}
 				}
@@ -349,6 +379,12 @@ impl Model for M {
 			"height": w.node.height(),
 		})
 	}
+}
+
+fn path_to_id(p: &str) -> Identifier {
+	let n: Vec<u32> = p.trim_start_matches("m/").split('/').map(|x| x.parse().unwrap()).collect();
+	let g = |i: usize| n.get(i).cloned().unwrap_or(0);
+	<crate::keychain::ExtKeychain as crate::keychain::Keychain>::derive_key_id(n.len() as u8, g(0), g(1), g(2), g(3))
 }
 
 pub fn acct_path(label: &str) -> String {
